@@ -116,7 +116,7 @@ class Contract:
                  modular=False, which=None, props=(), note='', setup=None, result_shape=None, witnesses=(),
                  assume_result=None, ghost=None, exc_ensures=None, max_instances=None, instance_filter=None,
                  pre_state=None, trusted=False, reveal=(), functional=None, inline=(), functional_outputs=1,
-                 prune=False, heavy=False, use=None, at_calls=None):
+                 prune=False, heavy=False, use=None, at_calls=None, hints=()):
         self.key = key
         self.params = params or {}
         self.requires = _clauses(requires, 'requires')
@@ -141,6 +141,9 @@ class Contract:
         self.functional_outputs = functional_outputs
         self.prune = prune
         self.heavy = heavy
+        # 'div-bounds': every symbolic division a / b contributes the instantiated theorem a >= 0 and b >= 1 =>
+        # 0 <= a / b <= a (opt-in: extra nonlinear facts slow down, and can hang, queries that do not need them)
+        self.hints = tuple(hints)
         self.use = use or {}     # {callee key: [labels of the callee's ensures this caller relies on]} (default: all)
         self.inline = tuple(inline)      # callee keys whose bodies are executed here although they have modular contracts
         # {callee key: [(label, expr[, props])]}: what THIS function must pass to a callee used through its contract.
